@@ -557,7 +557,7 @@ def statement_starts(text: str, prefix: str) -> List[int]:
     return out
 
 
-def for_to_while(text: str, k: int, seq_tpl: str, elem_tpl: str) -> str:
+def for_to_while(text: str, k: int, seq_tpl: str, elem_tpl: str, expect_iter: Optional[str] = None, seen: Optional[list] = None) -> str:
     """Rewrite the k-th loop (which must be a `for PAT in EXPR {`) into an index loop over a
     materialised sequence:
 
@@ -592,6 +592,12 @@ def for_to_while(text: str, k: int, seq_tpl: str, elem_tpl: str) -> str:
         raise ExtractError("for2while: no `in` in loop header %d" % k)
     pat = text[toks[fi + 1].start:toks[in_i - 1].end]
     it = text[toks[in_i + 1].start:toks[bi - 1].end]
+    if seen is not None:
+        seen.append(" ".join(t.text for t in tokenize(it)))
+    # the iterable of the real loop is replaced by seq_tpl: unless seq_tpl quotes it ($iter), it must be the iterable the
+    # template was written for -- a changed iterable (.skip(1), .rev(), another collection) is never silently replaced
+    if expect_iter is not None and [t.text for t in tokenize(it)] != [t.text for t in tokenize(expect_iter)]:
+        raise ExtractError("for2while: loop %d iterates over `%s`, the template was written for `%s`" % (k, " ".join(t.text for t in tokenize(it)), expect_iter))
     s_name, i_name = "__s_%d" % k, "__i_%d" % k
     # integer range `A..B` (exclusive): plain counter loop, no materialised sequence
     itoks = toks[in_i + 1:bi]
